@@ -13,7 +13,9 @@ package consensus_test
 // available there); without such a peer every fetch fails.
 // Streams: "rep_x" (every forest of <=3 blocks x views x store order x two commit targets),
 // "rep_r" (seeded random chains with forks and repeated commands, several replicas committing
-// the same chain in different steps), "rep_c" (catch-up: long chains committed in one call,
+// the same chain in different steps; a quarter with wide ids / sequence numbers, a third with views
+// that agree in their low 8 / 16 bits), "rep_h" (one block missing at every depth: the commit fails, the block arrives
+// locally or at the peer, the commit is retried and repeated), "rep_c" (catch-up: long chains committed in one call,
 // stored locally or fetched from a peer).
 // The property's own sentences are evaluated on the Go observations (v.Oracle); every trace is
 // emitted as a Gallina case for Corr/C06.v (replica_mismatches).
@@ -44,10 +46,18 @@ import (
 type c06Cmd struct {
 	C uint32 `json:"c"`
 	S uint64 `json:"s"`
+	D []byte `json:"d,omitempty"` // payload; default: low bytes of client and seq
 }
 
-func (c c06Cmd) data() []byte { return []byte{byte(c.C), byte(c.S)} }
-func (c c06Cmd) g() string    { return fmt.Sprintf("(mkCmd %d %d [%d;%d])", c.C, c.S, byte(c.C), byte(c.S)) }
+func (c c06Cmd) data() []byte {
+	if c.D != nil {
+		return c.D
+	}
+	return []byte{byte(c.C), byte(c.S)}
+}
+
+var c06WideClients = []uint32{0, 1, 257, 65537, 1<<24 + 1, 1<<31 + 1, 1<<32 - 1, 256, 1 << 16}
+var c06WideSeqs = []uint64{0, 1, 2, 1 << 32, 1<<32 + 1, 1<<32 + 2, 1 << 63, 1<<63 + 1, 1<<64 - 2, 1<<64 - 1}
 
 type c06Blk struct {
 	Parent int      `json:"parent"` // index of the parent block, -1 = genesis, -2 = a block nobody has
@@ -86,9 +96,37 @@ func c06Sum(b []byte) []byte { s := sha256.Sum256(b); return s[:] }
 
 // c06Explain returns the indices of a sub-sequence of batch with dc elements whose payloads,
 // appended to pre, hash to sum (SHA-256 idealised as injective); ok=false if there is none.
-func c06Explain(pre []byte, batch []*clientpb.Command, sum []byte, dc int) (idx []int, ok bool) {
+func c06Explain(pre []byte, batch []*clientpb.Command, sum []byte, dc int, hw map[uint32]uint64) (idx []int, ok bool) {
 	n := len(batch)
 	if n > 14 {
+		// too many sub-sequences to try: only the one the property's sentences single out (per
+		// client strictly above everything executed so far, in batch order), everything, nothing
+		var greedy, all []int
+		top := map[uint32]uint64{}
+		has := map[uint32]bool{}
+		for k, x := range hw {
+			top[k], has[k] = x, true
+		}
+		for i, c := range batch {
+			all = append(all, i)
+			if !has[c.ClientID] || c.SequenceNumber > top[c.ClientID] {
+				greedy = append(greedy, i)
+				top[c.ClientID], has[c.ClientID] = c.SequenceNumber, true
+			}
+		}
+		for _, cand := range [][]int{greedy, all, nil} {
+			if len(cand) != dc {
+				continue
+			}
+			h := sha256.New()
+			h.Write(pre)
+			for _, i := range cand {
+				h.Write(batch[i].Data)
+			}
+			if bytes.Equal(h.Sum(nil), sum) {
+				return cand, true
+			}
+		}
 		return nil, false
 	}
 	for mask := 0; mask < 1<<n; mask++ {
@@ -235,6 +273,7 @@ func (w *c06World) run(t *testing.T, stream *verifStream, name string, sc c06Sce
 		var pre []byte
 		last := c06Snap{0, c06Sum(nil)}
 		executed := map[clientpb.MessageID]int{}
+		hw := map[uint32]uint64{} // sequence number of the last decoded execution per client
 		undecodable := false
 		var delta []byte
 		snap := func(e clientpb.ExecuteEvent) {
@@ -242,7 +281,7 @@ func (w *c06World) run(t *testing.T, stream *verifStream, name string, sc c06Sce
 			if count == last.count && bytes.Equal(sum, last.sum) {
 				return
 			}
-			idx, ok := c06Explain(pre, e.Batch.GetCommands(), sum, int(count-last.count))
+			idx, ok := c06Explain(pre, e.Batch.GetCommands(), sum, int(count-last.count), hw)
 			if !ok {
 				undecodable = true
 			}
@@ -251,6 +290,7 @@ func (w *c06World) run(t *testing.T, stream *verifStream, name string, sc c06Sce
 				pre = append(pre, c.Data...)
 				delta = append(delta, c.Data...)
 				executed[c.ID()]++
+				hw[c.ClientID] = c.SequenceNumber
 			}
 			last = c06Snap{count, sum}
 		}
@@ -311,8 +351,14 @@ func (w *c06World) run(t *testing.T, stream *verifStream, name string, sc c06Sce
 			// ---- the property's sentences on what was observed ----
 			where := fmt.Sprintf("replica %d op %d", ri, oi)
 			if res != 0 {
-				v.Oracle(len(events) == 0 && committed == committedBefore, "committer.commit:partial-commit-on-error",
-					where+": TryCommit failed but events were emitted or the committed block moved", meta)
+				unchanged := true
+				if n := len(obs.snaps); n > 0 {
+					unchanged = obs.snaps[n-1].count == count && bytes.Equal(obs.snaps[n-1].sum, sum)
+				} else {
+					unchanged = count == 0
+				}
+				v.Oracle(len(events) == 0 && committed == committedBefore && unchanged, "committer.commit:partial-commit-on-error",
+					where+": TryCommit failed but events were emitted, the committed block moved or commands were executed", meta)
 			}
 			// every CommitEvent is followed at once by the ExecuteEvent of that block's batch; aborts last
 			shape := pairOK
@@ -447,9 +493,9 @@ func (w *c06World) run(t *testing.T, stream *verifStream, name string, sc c06Sce
 func c06CmdsFor(i int) []c06Cmd {
 	// block i carries its own command and repeats its predecessor's: overlap between blocks
 	if i == 0 {
-		return []c06Cmd{{1, 1}}
+		return []c06Cmd{{C: 1, S: 1}}
 	}
-	return []c06Cmd{{1, uint64(i)}, {1, uint64(i + 1)}, {2, uint64(i%2 + 1)}}
+	return []c06Cmd{{C: 1, S: uint64(i)}, {C: 1, S: uint64(i + 1)}, {C: 2, S: uint64(i%2 + 1)}}
 }
 
 func (w *c06World) exhaustive(t *testing.T, s *verifStream) {
@@ -511,6 +557,8 @@ func (w *c06World) exhaustive(t *testing.T, s *verifStream) {
 func (w *c06World) random(t *testing.T, s *verifStream) {
 	rng := w.v.rng
 	L := 2 + rng.Intn(9)
+	wide := rng.Intn(100) < 25
+	viewMode := rng.Intn(100) // <65 small views; else views that collide when truncated to 8 / 16 bits
 	var blocks []c06Blk
 	var main []int
 	var pool []c06Cmd
@@ -518,12 +566,25 @@ func (w *c06World) random(t *testing.T, s *verifStream) {
 		if len(pool) > 0 && rng.Intn(100) < 40 {
 			return pool[rng.Intn(len(pool))]
 		}
-		c := c06Cmd{uint32(1 + rng.Intn(3)), uint64(rng.Intn(8))}
+		c := c06Cmd{C: uint32(1 + rng.Intn(3)), S: uint64(rng.Intn(8))}
+		if wide {
+			// ids / sequence numbers that collide when truncated; payload = table indices
+			ci, si := 1+rng.Intn(5), rng.Intn(len(c06WideSeqs))
+			if rng.Intn(100) < 30 {
+				ci = rng.Intn(len(c06WideClients))
+			}
+			c = c06Cmd{C: c06WideClients[ci], S: c06WideSeqs[si], D: []byte{byte(ci), byte(si)}}
+		}
 		pool = append(pool, c)
 		return c
 	}
 	batch := func() []c06Cmd {
-		b := make([]c06Cmd, rng.Intn(5))
+		nb := rng.Intn(5)
+		if rng.Intn(100) < 4 {
+			nb = 15 + rng.Intn(26) // a realistic batch size
+			w.v.Count("rep_r:large-batch")
+		}
+		b := make([]c06Cmd, nb)
 		for i := range b {
 			b[i] = pick()
 		}
@@ -550,6 +611,22 @@ func (w *c06World) random(t *testing.T, s *verifStream) {
 				blocks = append(blocks, c06Blk{Parent: f, View: blocks[f].View + 1, Cmds: batch()})
 			}
 		}
+	}
+	for i := range blocks {
+		// (PruneToHeight walks every view number between two commits, so gaps of 2^32 and more
+		// cannot be run; views that agree in their low 8 / 16 bits can)
+		switch {
+		case viewMode >= 85:
+			blocks[i].View <<= 16
+		case viewMode >= 65:
+			blocks[i].View = blocks[i].View<<8 + 1
+		}
+	}
+	if wide {
+		w.v.Count("rep_r:wide-values")
+	}
+	if viewMode >= 65 {
+		w.v.Count("rep_r:big-views")
 	}
 	nrep := 2 + rng.Intn(2)
 	var reps [][]c06Op
@@ -643,11 +720,11 @@ func (w *c06World) catchup(t *testing.T, s *verifStream, n int, withFork, fetche
 	var blocks []c06Blk
 	var ops1, ops2 []c06Op
 	for i := 0; i < n; i++ {
-		blocks = append(blocks, c06Blk{Parent: i - 1, View: uint64(i + 1), Cmds: []c06Cmd{{uint32(1 + i%3), uint64(1 + i/3)}}})
+		blocks = append(blocks, c06Blk{Parent: i - 1, View: uint64(i + 1), Cmds: []c06Cmd{{C: uint32(1 + i%3), S: uint64(1 + i/3)}}})
 	}
 	tip := n - 1
 	if withFork {
-		blocks = append(blocks, c06Blk{Parent: n / 2, View: uint64(n/2+2) + 1000, Cmds: []c06Cmd{{9, 1}}})
+		blocks = append(blocks, c06Blk{Parent: n / 2, View: uint64(n/2+2) + 1000, Cmds: []c06Cmd{{C: 9, S: 1}}})
 	}
 	for i := range blocks {
 		if i != tip {
@@ -666,17 +743,79 @@ func (w *c06World) catchup(t *testing.T, s *verifStream, n int, withFork, fetche
 	w.run(t, s, "rep_c", c06Scenario{Blocks: blocks, Replicas: [][]c06Op{ops1, ops2}})
 }
 
+// holes: a commit that fails part-way and succeeds later.  Chain of n blocks; every non-tip block is
+// either stored locally or only available at a peer, except one (the hole, at every depth) that
+// nobody has: TryCommit(tip) walks / fetches down to the hole and must fail without committing,
+// executing or emitting anything.  Then (optionally after a commit of the part below the hole) the
+// missing block arrives — stored locally or at the peer — and the same TryCommit must commit the
+// whole path once, in order; repeating it afterwards must do nothing.  A second replica commits the
+// chain block by block.
+func (w *c06World) holes(t *testing.T, s *verifStream, n int, quick bool) {
+	for hole := 0; hole < n-1; hole++ {
+		for place := 0; place < 1<<(n-2); place++ {
+			if quick && n >= 6 && (place*7+hole)%3 != 0 {
+				continue
+			}
+			for variant := 0; variant < 4; variant++ {
+				fillByPeer, midCommit := variant&1 == 1, variant&2 == 2
+				if midCommit && hole == 0 {
+					continue
+				}
+				var blocks []c06Blk
+				for i := 0; i < n; i++ {
+					blocks = append(blocks, c06Blk{Parent: i - 1, View: uint64(2*i + 1), Cmds: c06CmdsFor(i)})
+				}
+				tip := n - 1
+				var ops1, ops2 []c06Op
+				bit := 0
+				for i := 0; i < tip; i++ {
+					if i == hole {
+						continue
+					}
+					kind := "store"
+					if place&(1<<bit) != 0 {
+						kind = "peer"
+					}
+					bit++
+					ops1 = append(ops1, c06Op{Kind: kind, Blk: i})
+				}
+				ops1 = append(ops1, c06Op{Kind: "try", Blk: tip, Target: tip}) // fails at the hole
+				if midCommit {
+					// what is below the hole can be committed meanwhile (it may itself need a fetch)
+					ops1 = append(ops1, c06Op{Kind: "try", Blk: tip, Target: hole - 1})
+				}
+				ops1 = append(ops1, c06Op{Kind: "try", Blk: tip, Target: tip}) // still fails
+				if fillByPeer {
+					ops1 = append(ops1, c06Op{Kind: "peer", Blk: hole})
+				} else {
+					ops1 = append(ops1, c06Op{Kind: "store", Blk: hole})
+				}
+				ops1 = append(ops1, c06Op{Kind: "try", Blk: tip, Target: tip}, c06Op{Kind: "try", Blk: tip, Target: tip})
+				for i := 0; i < n; i++ {
+					ops2 = append(ops2, c06Op{Kind: "try", Blk: i, Target: i})
+				}
+				w.v.Count(fmt.Sprintf("holes:n=%d", n))
+				w.run(t, s, "rep_h", c06Scenario{Blocks: blocks, Replicas: [][]c06Op{ops1, ops2}})
+			}
+		}
+	}
+}
+
 func TestVerifC06(t *testing.T) {
 	logging.SetLogLevel("error")
 	v := verifNew("C06")
 	w := &c06World{v: v, remote: testutil.WireUpEssentials(t, 99, crypto.NameECDSA)}
-	defer v.Close("Committer+Blockchain+ViewStates+ClientIO on one production-wired event loop: every forest of <=3 blocks (parent, view gap 1|2) x store order x two scripted commit targets (nil, any block); seeded random main chains (2..10 blocks, 35% forks, 40% repeated commands, missing blocks, stray targets) committed by 2-3 replicas in different steps; catch-up chains of 1..N blocks committed in one call vs block by block")
+	defer v.Close("Committer+Blockchain+ViewStates+ClientIO on one production-wired event loop: every forest of <=3 blocks (parent, view gap 1|2) x store order x two scripted commit targets (nil, any block); seeded random main chains (2..10 blocks, 35% forks, 40% repeated commands, missing blocks, stray targets) committed by 2-3 replicas in different steps, 25% with wide client ids / sequence numbers (equal mod 2^8..2^32, 0, max), 35% with views spread out (v*256+1, v*65536); chains of 2..5 blocks with one block missing at every depth (others stored or at a peer): TryCommit fails, hole filled locally or at the peer, TryCommit succeeds, repeated; catch-up chains of 1..N blocks committed in one call vs block by block")
 
 	xs := v.Stream("rep_x", "replica_mismatches", 600)
 	w.exhaustive(t, xs)
 	rs := v.Stream("rep_r", "replica_mismatches", 400)
 	for i := 0; i < v.Pick(1200, 20000); i++ {
 		w.random(t, rs)
+	}
+	hs := v.Stream("rep_h", "replica_mismatches", 300)
+	for n := 2; n <= v.Pick(5, 7); n++ {
+		w.holes(t, hs, n, !v.Thorough())
 	}
 	cs := v.Stream("rep_c", "replica_mismatches", 4)
 	lens := []int{1, 2, 5, 17, 33, 34, 35, 50}
